@@ -156,6 +156,18 @@ def judge(r, ff, ops, ffsteps):
             elif kind == "Done" and o == st:
                 completed.add(st)
                 o = None
+        # exact start/duration against the simulated clock: recorded as a probe only (the statement promises
+        # non-negative durations, not exact ones)
+        tstart, tdone = {}, {}
+        for n, tm in zip(ev, r.get("times") or []):
+            st, kind = stage(n)
+            (tstart if kind == "Start" else tdone)[st] = tm
+        vocab0 = {v: name for name, v in ops}
+        for m in ms:
+            name = vocab0.get(m["op"])
+            if name in tstart and name in tdone and (m["start"] != tstart[name] or m["dur"] != tdone[name] - tstart[name]):
+                r.setdefault("probe_milestone_time_mismatch", 0)
+                r["probe_milestone_time_mismatch"] += 1
         byop = {}
         for m in ms:
             byop.setdefault(m["op"], []).append(m)
